@@ -13,7 +13,7 @@ def run(ck):
     d = vlib.run_driver(drv, ["c14", ck.tier, ck.seed, t])
     if d["rc"] != 0:
         raise vlib.InfraError("driver failed rc=%s %s" % (d["rc"], d["err"][-1500:]))
-    ck.trace("paths", "Trace_Grid", "Trace.cfg", t, nchunks=48, balance=True,
+    ck.trace("paths", "Trace_Grid", "Trace.cfg", t, nchunks=16, balance=True,
              what="pairs within k<=3(4) for sampled/all cells of r<=2, strata at all r, random and straight walks, long "
                   "paths (60-160 steps of 3 cells) at r>=5 and lines of 2500-14000 cells at r=13..15; size = distance+1, endpoints, validity, adjacency of consecutive "
                   "cells in N, sentinels beyond the announced size, success for a=b and neighbours")
